@@ -91,7 +91,7 @@ def region_lazy_decode_identities(**kw):
 
 def pre_doc(fn, **kw):
     for k, v in kw.items():
-        lim = {"k": len(KS), "r": len(REFS), "c": len(CH), "x": 3}[k[0]]
+        lim = {"k": len(KS), "r": len(REFS), "c": len(CH), "x": 3, "z": 2}[k[0]]
         lim = min(lim, CFG.get("lims", {}).get(k, lim))
         if not (0 <= v < lim):
             return False
@@ -160,7 +160,7 @@ def _materialise(data, errors):
 
 def h_lazy(**kw) -> bool:
     """iter_errors(): same errors (reason and path) in the same order"""
-    doc = _doc(kw)
+    doc = _doc(kw) if CFG["n"] else '<r/>'          # n = 0: the childless root (nothing is streamed)
     lazy = CFG["lazy"]
     eager_errors = [(e.reason, e.path) for e in SCHEMA.iter_errors(XMLResource(doc))]
     lazy_errors = [(e.reason, e.path) for e in SCHEMA.iter_errors(XMLResource(doc, lazy=lazy, thin_lazy=CFG["thin"]))]
@@ -236,8 +236,8 @@ META = {
 def obligations(tier, seed):
     quick = tier == "quick"
     out = []
-    for n in ((1, 2) if quick else (1, 2, 3)):
-        args = []
+    for n in ((0, 1, 2) if quick else (0, 1, 2, 3)):
+        args = [] if n else [["z", "int"]]          # n = 0: a dummy argument (the engine needs at least one)
         for j in range(n):
             args += [["k%d" % j, "int"], ["r%d" % j, "int"], ["c%d" % j, "int"]]
         for thin in ((True,) if quick else (True, False)):
@@ -251,7 +251,7 @@ def obligations(tier, seed):
                                        "fixed": {} if k0 is None else {"k0": k0}},
                             "timeout": 900 if quick else 3000, "twin_timeout": 40,
                             "bound": "%d items: key from %r, keyref from %r, children %r" % (n, KS, REFS, CH)})
-        args2 = []
+        args2 = [] if n else [["z", "int"]]
         for j in range(n):
             args2 += [["c%d" % j, "int"], ["x%d" % j, "int"]]
         out.append({"name": "iter/lazy1/n%d" % n, "fn": "h_iter", "pre": "pre_doc", "args": args2 + [["k0", "int"], ["r0", "int"]][:0],
